@@ -33,8 +33,6 @@ pub struct RefMember {
 	pub from_name: String,
 	pub from_desc: String,
 	pub to_name: Option<String>,
-	/// the entry's own descriptor carried from the first namespace to `to`
-	pub to_desc_alt: Vec<String>,
 }
 
 #[derive(Clone, Debug)]
@@ -80,7 +78,6 @@ impl World {
 	/// `first_names`: class names (in `from`) that get the first indices, in this order
 	pub fn build(set: &MSet, from: usize, to: usize, first_names: &[String]) -> World {
 		let zero_from = CMap::build(set, 0, from);
-		let zero_to = CMap::build(set, 0, to);
 		let fwd = CMap::build(set, from, to);
 		let mut names: Vec<String> = first_names.to_vec();
 		let mut rows: Vec<Option<RefClass>> = vec![None; names.len()];
@@ -112,7 +109,6 @@ impl World {
 					from_name: from_name.clone(),
 					from_desc: fd[0].clone(),
 					to_name: row[to].clone(),
-					to_desc_alt: zero_to.map_all(kind.tkind(), d0).unwrap_or_default(),
 				});
 			};
 			for ((_, d0), fl) in &c.fields {
@@ -267,7 +263,10 @@ impl World {
 			Ans::Fallback => name == q.as_bytes() && exp_desc.iter().any(|d| d.as_bytes() == desc),
 			Ans::Found { class, member, .. } => {
 				let m = &self.rows[*class].as_ref().unwrap().members[*member];
-				m.to_name.as_deref().map(|n| n.as_bytes()) == Some(name) && (exp_desc.iter().any(|d| d.as_bytes() == desc) || m.to_desc_alt.iter().any(|d| d.as_bytes() == desc))
+				// the descriptor answered with a renamed member is the QUERIED descriptor with exactly its class names rewritten
+				// (the entry's own descriptor carried from the first namespace to `to` was accepted here as well until the
+				// repair of remapper_b recorded in known_findings.json: it can name a class by its first-namespace name)
+				m.to_name.as_deref().map(|n| n.as_bytes()) == Some(name) && exp_desc.iter().any(|d| d.as_bytes() == desc)
 			},
 		}
 	}
